@@ -108,6 +108,27 @@ Proof.
   eapply decay_rt_dead; [apply decay_run|exact Hk'|exact Hd].
 Qed.
 
+(* the exchange also removes the access token the authorization endpoint handed out for the grant (hybrid flow) *)
+Lemma refresh_ok_no_implicit cfg s auth tok k r :
+  o_err (snd (refresh_flow cfg s auth tok)) = "" -> key_of s tok = Some k -> refresh (st s) k = Some (true, r) ->
+  no_implicit_rid (st (fst (refresh_flow cfg s auth tok))) (r_id r).
+Proof.
+  unfold refresh_flow.
+  destruct auth as [c|]; [|discriminate].
+  destruct (clients s c) as [cl|]; [|discriminate].
+  destruct (negb (args_has (cl_grants cl) ["refresh_token"])); [discriminate|].
+  intros Hok Hk Hr. rewrite Hk in *. cbn [find] in *. rewrite Hr in *.
+  revert Hok.
+  repeat match goal with |- context [if ?c then _ else _] => destruct c; [discriminate|] end.
+  unfold rotate_refresh.
+  pose proof (revoke_refresh_imp (st s) (r_id r)) as Ti.
+  destruct (revoke_refresh (st s) (r_id r)) as [st1 [e|]] eqn:Err; cbn [fst] in *; [discriminate|].
+  match goal with |- context [grant_tokens ?s2 ?stored ?w] =>
+    pose proof (grant_tokens_imp s2 stored w) as G; destruct (grant_tokens s2 stored w) as [s3 minted] eqn:Eg end.
+  cbn [fst snd] in *. intros _ k0 r0 H. rewrite G in H. cbn [st set_store] in H.
+  exact (revoke_access_no_implicit st1 (r_id r) k0 r0 H).
+Qed.
+
 (* after a successful exchange every credential the grant had before — the presented refresh token and the
    access token issued alongside it included — is inactive, now and after any further history *)
 Theorem rotation_retires_old_pair cfg cls h1 auth tok h2 :
@@ -116,14 +137,15 @@ Theorem rotation_retires_old_pair cfg cls h1 auth tok h2 :
   o_err (snd res1) = "" ->
   exists k r, key_of s1 tok = Some k /\ refresh (st s1) k = Some (true, r) /\
   forall i e tampered hint scopes,
-    nth_error (log s1) i = Some e -> i_rid e = r_id r -> i_kind e <> KImplicit ->
+    nth_error (log s1) i = Some e -> i_rid e = r_id r ->
     introspect cfg (run cfg (fst res1) h2) {| p_ref := CRef i; p_tampered := tampered |} hint scopes = None.
 Proof.
   intros s1 res1 Hok.
   assert (I1 : Inv s1) by apply Inv_reachable.
   destruct (refresh_ok_rotates cfg s1 auth tok I1 Hok) as [k [r [Hk [Hact [Hm [Hd Hall]]]]]].
   exists k, r. split; [exact Hk|]. split; [exact Hact|].
-  intros i e tampered hint scopes Hn Hrid Hkind.
+  intros i e tampered hint scopes Hn Hrid.
+  pose proof (refresh_ok_no_implicit cfg s1 auth tok k r Hok Hk Hact) as Hni. fold res1 in Hni.
   assert (He : In e (log s1)) by (eapply nth_error_In; eassumption).
   destruct (Hall e He Hrid) as [Ha Hr].
   assert (Hlt : i_key e < next_key (fst res1)).
@@ -142,7 +164,11 @@ Proof.
   - eapply decay_access_gone; eauto.
   - destruct (implicit (st (run cfg (fst res1) h2)) (i_key e)) as [ri|] eqn:Ei; [|reflexivity].
     exfalso. pose proof (inv_owner_implicit _ I2 _ _ Ei) as Ho1.
-    pose proof (inv_log_owner _ I2 e (nth_error_In _ _ Hj)) as Ho2. rewrite Ho1 in Ho2. congruence.
+    pose proof (inv_log_owner _ I2 e (nth_error_In _ _ Hj)) as Ho2. rewrite Ho1 in Ho2. injection Ho2 as _ Hx.
+    assert (Hltr : r_id r < next_rid (fst res1)).
+    { pose proof (next_rid_step cfg s1 (ORefresh auth tok [])) as Hn'. cbn [step] in Hn'.
+      pose proof (proj2 (inv_refresh_fresh s1 _ _ _ I1 Hact)). unfold res1. lia. }
+    apply (no_implicit_run cfg h2 (fst res1) (r_id r) Hni Hltr _ _ Ei). congruence.
   - eapply decay_rt_dead; eauto.
 Qed.
 
